@@ -361,15 +361,26 @@ impl DOPRI5 {
 
                 // Stiffness detection (a step on which it gives up is neither counted nor reported)
                 if ((steps.accepted + 1) % nstiff == 0) || (iasti > 0) {
-                    let mut stnum = 0.0_f64;
-                    let mut stden = 0.0_f64;
-                    for i in 0..n {
-                        let d1 = k2[i] - k6[i];
-                        let ysti = y[i]
-                            + h * (A61 * k1[i] + A62 * k2[i] + A63 * k3[i] + A64 * k4[i] + A65 * k5[i]);
-                        let d2 = y1[i] - ysti;
-                        stnum += d1 * d1;
-                        stden += d2 * d2;
+                    // Sums of squares of the two differences, the differences scaled by s first
+                    let sums = |s: Float| -> (Float, Float, Float) {
+                        let (mut num, mut den, mut big): (Float, Float, Float) = (0.0, 0.0, 0.0);
+                        for i in 0..n {
+                            let d1 = (k2[i] - k6[i]) * s;
+                            let ysti = y[i]
+                                + h * (A61 * k1[i] + A62 * k2[i] + A63 * k3[i] + A64 * k4[i] + A65 * k5[i]);
+                            let d2 = (y1[i] - ysti) * s;
+                            num += d1 * d1;
+                            den += d2 * d2;
+                            big = big.max(d1.abs()).max(d2.abs());
+                        }
+                        (num, den, big)
+                    };
+                    let (mut stnum, mut stden, big) = sums(1.0);
+                    if !(stnum.is_normal() && stden.is_normal()) && big > 0.0 && big.is_finite() {
+                        // The squares left the normal range (differences of size 1e-160 or 1e160):
+                        // a power of two as scale leaves the quotient of the sums unchanged
+                        let e = big.log2().floor().clamp(-1000.0, 1000.0) as i32;
+                        (stnum, stden, _) = sums((2.0 as Float).powi(-e));
                     }
                     if stden > 0.0 {
                         hlamb = h.abs() * (stnum / stden).sqrt();
